@@ -47,6 +47,15 @@ class Alphabet:
 
 
 def canon(parser):
+    """canonical content of the two window tables, or None when the implementation no longer keeps them in the shape this
+    observation knows (then the 'stray END changes nothing' clause is judged on behaviour only)."""
+    try:
+        return _canon(parser)
+    except Exception:
+        return None
+
+
+def _canon(parser):
     out = []
     for dom, table in (('ord', parser.on_going_events), ('trace', parser.on_going_traces)):
         for tid in sorted(table):
@@ -56,6 +65,13 @@ def canon(parser):
 
 
 def canon_abstract(parser):
+    try:
+        return _canon_abstract(parser)
+    except Exception:
+        return ('unobservable',)
+
+
+def _canon_abstract(parser):
     out = []
     for dom, table in (('ord', parser.on_going_events), ('trace', parser.on_going_traces)):
         for tid in sorted(table):
@@ -64,11 +80,11 @@ def canon_abstract(parser):
     return tuple(out)
 
 
-def check_history(alpha, hist, from_step=0, collect_state=None):
+def check_history(alpha, hist, from_step=0, collect_state=None, prefilled=False):
     """Run one history on a fresh parser with the reference model in lockstep.
     Returns (violation or None, n_emitted, matched_end_seen). Steps < from_step are replayed and modelled
     but not judged (they were judged as part of an earlier history with the same prefix)."""
-    p = TracesParser(alpha.tc, {}, {})
+    p = TracesParser(alpha.tc, {1: 10, 2: 20, 3: 30}, {10: 'a', 20: 'b', 30: 'c'}) if prefilled else TracesParser(alpha.tc, {}, {})
     ref = {'ord': {}, 'trace': {}}
     emitted = 0
     matched = 0
@@ -151,7 +167,7 @@ def check_history(alpha, hist, from_step=0, collect_state=None):
                 return ('single-event-trace-not-alone', i, pos), emitted, matched
         if stray and before is not None:
             after = canon(p)
-            if after != before:
+            if after is not None and after != before:
                 # leniency: the stray END may have been appended to the windows open on its thread+domain
                 ok = True
                 bd = {(a, b, c): w for a, b, c, w in before}
@@ -184,9 +200,11 @@ _ALPHA = {}
 
 
 def alphabet(name):
-    if name not in _ALPHA:
-        _ALPHA[name] = Alphabet(*ALPHABETS[name])
-    return _ALPHA[name]
+    """'X+map' = alphabet X fed to a parser whose thread map is already populated at construction."""
+    base = name.split('+')[0]
+    if base not in _ALPHA:
+        _ALPHA[base] = Alphabet(*ALPHABETS[base])
+    return _ALPHA[base]
 
 
 class C04(Check):
@@ -198,7 +216,7 @@ class C04(Check):
             'reference model of the statement in lockstep (every maximal history is run; each shorter history is '
             'judged as a prefix exactly once). Cases are distinct by construction (each element of the product is '
             'enumerated once); non-trivial = the history contains at least one END that matches an open START of '
-            'the same code on the same thread. states = distinct canonical window-table states (positions '
+            'the same code on the same thread. Alphabets marked +map are fed to a parser whose thread map was already populated when it was built. states = distinct canonical window-table states (positions '
             'abstracted) reached at the end of a history; transitions = real feed() calls.')
     assumptions = (
         'codes used: BSC_getpid/BSC_getuid (ordinary), TRACE_DATA_EXEC/TRACE_STRING_PROC_EXIT (trace domain), '
@@ -211,8 +229,8 @@ class C04(Check):
 
     def plan(self):
         if self.tier == 'quick':
-            return [('A40', 4), ('FRAG', 3), ('T3', 3), ('C7', 4)]
-        return [('A40', 5), ('A16', 6), ('FRAG', 4), ('A48', 4), ('T3', 4), ('C7', 5)]
+            return [('A40', 4), ('FRAG', 3), ('T3', 3), ('C7', 4), ('A16+map', 4), ('T3+map', 3)]
+        return [('A40', 5), ('A16', 6), ('FRAG', 4), ('A48', 4), ('T3', 4), ('C7', 5), ('A40+map', 4), ('T3+map', 4)]
 
     def bounds(self):
         return {'spaces': [{'alphabet': a, 'symbols': len(alphabet(a).syms), 'depth': d,
@@ -279,7 +297,7 @@ class C04(Check):
                 while hist[from_step] == prev[from_step]:
                     from_step += 1
             prev = hist
-            bad, emitted, matched = check_history(alpha, hist, from_step, states)
+            bad, emitted, matched = check_history(alpha, hist, from_step, states, prefilled=a.endswith('+map'))
             acc.case(nontrivial=matched > 0, transitions=d, outcome=None)
             if emitted:
                 acc.count('histories_emitting_traces')
@@ -299,7 +317,7 @@ class C04(Check):
             self.run_long(('long', case['long'][0], case['long'][1]), acc)
             return [(sig, v['cases'][0][1]) for sig, v in acc.violations.items()]
         alpha = alphabet(case['alphabet'])
-        bad, _, _ = check_history(alpha, tuple(case['history']), 0, None)
+        bad, _, _ = check_history(alpha, tuple(case['history']), 0, None, prefilled=case['alphabet'].endswith('+map'))
         return [(bad[0], {'step': bad[1], 'detail': bad[2]})] if bad else []
 
 
